@@ -70,7 +70,7 @@ var isTag = map[string]bool{"ExecuteWithStopTagDirect": true, "ExecuteMixModelWi
 // fault snippets usable as the way a rule fails (deterministic, terminate at once)
 var failKinds = []string{"cond-notbool", "break-outside", "continue-outside", "arith-asg", "arith-if", "div-zero", "undef-var",
 	"undef-func", "undef-method", "nil-deref", "nil-deref-set", "index-read", "index-write", "store-kind", "panic-method",
-	"argcount", "not-nonbool", "cmp-if", "logic-asg", "arith-return", "panic-func-return", "arith-conc"}
+	"argcount", "not-nonbool", "cmp-if", "logic-asg", "arith-return", "panic-func-return", "arith-conc", "unexp-return", "panic-three"}
 
 func randSal(r *rand.Rand, style int) int64 {
 	switch style {
@@ -308,8 +308,8 @@ func genRandom(n int, fam string, seed int64, path string, target string) {
 					c.B = true
 				}
 			}
-			if !seqOnly[c.Method] {
-				s.Gated = true
+			if !seqOnly[c.Method] && i%5 != 0 {
+				s.Gated = true // one session in five runs its parallel models at natural speed
 			}
 			s.Calls = append(s.Calls, c)
 		}
